@@ -31,7 +31,14 @@ PINNED = {
     "batches.range": ["0", "n", "batch_size"],
     "batches.window": ["i", "(i + batch_size)"],
     "take.test": "(i ∈ indexes)",
+    # pass 4
+    "select.reads_late": True,
+    "collect.clamp": ["(limit ≥ n)", "(-1)"],
+    "collect.limit_bits": 32,
 }
+
+# C integer types a `limit` parameter of collect_cython may be declared with -> width in bits
+C_INT_BITS = {"int": 32, "int32_t": 32, "long": 64, "long long": 64, "int64_t": 64, "Py_ssize_t": 64, "ssize_t": 64}
 
 # methods of DataFrame and whether they call self.materialize() before they first touch self._rows
 MATERIALISES = {"slice": True, "row": True, "__len__": True, "rowcount": True, "__iter__": True, "__add__": True,
@@ -283,6 +290,67 @@ def generate(o):
             raise KeyError("DataFrame(rows=<inner>(), schema=new_header)")
         return comp_to_lean(y, {tup: "tup", "attribute_indices": "attribute_indices"})
 
+    def select_reads_late():
+        """True: the projection generator iterates `self._rows` (looked up when the selection is first read);
+        False: it iterates a local name bound to (a copy of) `self._rows` when `select` is called."""
+        inner = [st for st in select_fn().body if isinstance(st, ast.FunctionDef)]
+        if len(inner) != 1:
+            raise KeyError("inner projection generator")
+        loops = [st for st in body_wo_doc(inner[0]) if isinstance(st, ast.For)]
+        if len(loops) != 1:
+            raise KeyError("one loop in the projection generator")
+        over = ast.unparse(loops[0].iter)
+        if over == "self._rows":
+            return True
+        if isinstance(loops[0].iter, ast.Name):
+            for st in select_fn().body:
+                if isinstance(st, ast.Assign) and len(st.targets) == 1 and ast.unparse(st.targets[0]) == over \
+                        and "self._rows" in ast.unparse(st.value):
+                    return False
+        raise KeyError("what the projection generator iterates")
+
+    def collect_clamp():
+        """The Python-level clamp between the name resolution and the call of collect_cython:
+        `if <test on limit and the row count>: limit = <value>`; [False, ...] when `limit` reaches the
+        compiled function without one."""
+        fn = find_function(src.tree, "collect", "DataFrame")
+        e = {"limit": "limit", "len(self._rows)": "n", "self.rowcount": "n", "len(self)": "n"}
+        found = None
+        seen_norm = False
+        for st in fn.body:
+            assigns = [n for n in ast.walk(st) if (isinstance(n, ast.Assign) and any(ast.unparse(t) == "limit" for t in n.targets))
+                       or (isinstance(n, (ast.AugAssign, ast.AnnAssign)) and ast.unparse(n.target) == "limit")
+                       or (isinstance(n, ast.NamedExpr) and n.target.id == "limit")]
+            if not assigns:
+                continue
+            if not (isinstance(st, ast.If) and not st.orelse and len(st.body) == 1 and assigns == [st.body[0]]):
+                raise KeyError("limit is assigned outside an `if <test>: limit = <value>`")
+            if isinstance(st.test, ast.BoolOp) and ast.unparse(st.test.values[0]) == "limit is None" and not seen_norm:
+                seen_norm = True
+                continue
+            if found is not None:
+                raise KeyError("more than one clamp")
+            found = [to_lean(st.test, e), to_lean(st.body[0].value, {})]
+        calls = [n for n in ast.walk(fn) if isinstance(n, ast.Call) and ast.unparse(n.func) == "collect_cython"]
+        if len(calls) != 1 or len(calls[0].args) != 3 or ast.unparse(calls[0].args[2]) != "limit":
+            raise KeyError("collect_cython(rows, columns, limit)")
+        return found or ["False", "(-1)"]
+
+    def collect_limit_bits():
+        px = Src("orso/compute/compiled.pyx").text
+        m = re.search(r"collect_cython\(([^)]*)\)", px)
+        if not m:
+            raise KeyError("signature of collect_cython")
+        for prm in m.group(1).split(","):
+            prm = prm.split("=")[0].strip()
+            parts = prm.split()
+            if parts and parts[-1] == "limit":
+                ty = " ".join(parts[:-1])
+                if ty in C_INT_BITS:
+                    return C_INT_BITS[ty]
+                raise KeyError("C type of limit: %r" % ty)
+        raise KeyError("limit parameter")
+
     def mat(name, who="self"):
         return lambda: calls_materialize_first(find_function(src.tree, name, "DataFrame"), who)
 
@@ -373,6 +441,9 @@ def generate(o):
     ct = o.item("frame.collect.trunc_test", collect_trunc, PINNED["collect.trunc_test"])
     bp = o.item("frame.batches.parts", batches_parts, [PINNED["batches.range"], PINNED["batches.window"]])
     tt = o.item("frame.take.test", take_test, PINNED["take.test"])
+    srl = o.item("frame.select.reads_late", select_reads_late, PINNED["select.reads_late"])
+    cc = o.item("frame.collect.clamp", collect_clamp, PINNED["collect.clamp"])
+    cb = o.item("frame.collect.limit_bits", collect_limit_bits, PINNED["collect.limit_bits"])
     # is every definition the hand-written reference one? (then a model/mirror difference can only be a harness fault)
     as_pinned = (v["slice.neg_test"] == PINNED["slice.neg_test"] and v["slice.neg_start"] == PINNED["slice.neg_start"]
                  and v["slice.stop"] == PINNED["slice.stop"] and v["slice.zero"] == PINNED["slice.zero_length_test"]
@@ -381,7 +452,8 @@ def generate(o):
                  and v["select.indices"] == PINNED["select.indices"] and v["select.project"] == PINNED["select.project"]
                  and all(mats[k] == MATERIALISES.get(k, True) for k in mats)
                  and cl == [PINNED["collect.neg_test"], PINNED["collect.all_value"]] and ct == PINNED["collect.trunc_test"]
-                 and bp == [PINNED["batches.range"], PINNED["batches.window"]] and tt == PINNED["take.test"])
+                 and bp == [PINNED["batches.range"], PINNED["batches.window"]] and tt == PINNED["take.test"]
+                 and srl == PINNED["select.reads_late"] and cc == PINNED["collect.clamp"] and cb == PINNED["collect.limit_bits"])
     o.json["frame.source_as_pinned"] = bool(as_pinned)
     text = HEADER + "set_option linter.unusedVariables false\nnamespace Gen.Frame\n"
     text += "/-- dataframe.py `slice`: the test under which the offset is counted from the end -/\n"
@@ -420,6 +492,15 @@ def generate(o):
     text += "/-- … and compiled.pyx `collect_cython`: `if <collectTruncTest>: num_rows = limit` -/\n"
     text += "def collectTruncTest (limit num_rows : Int) : Prop := %s\n" % ct
     text += "instance (limit num_rows : Int) : Decidable (collectTruncTest limit num_rows) := by unfold collectTruncTest; infer_instance\n"
+    text += "/-- … between the two, the clamp `if <collectClampTest>: limit = <collectClampValue>` (`False`: there is none) … -/\n"
+    text += "def collectClampTest (limit n : Int) : Prop := %s\n" % cc[0]
+    text += "instance (limit n : Int) : Decidable (collectClampTest limit n) := by unfold collectClampTest; infer_instance\n"
+    text += "def collectClampValue : Int := %s\n" % cc[1]
+    text += "/-- … and the range of the C type `collect_cython` declares its `limit` parameter with (compiled.pyx signature) -/\n"
+    text += "def collectLimitMin : Int := -(2 ^ %d)\n" % (cb - 1)
+    text += "def collectLimitMax : Int := 2 ^ %d - 1\n" % (cb - 1)
+    text += "/-- `select`: the projection generator looks `self._rows` up when the selection is first read -/\n"
+    text += "def selectReadsLate : Bool := %s\n" % ("true" if srl else "false")
     text += "/-- `to_batches`: `for i in range(start, stop, step): yield rows[lower : upper]` (`n = rowcount`) -/\n"
     text += "def batchRangeStart (n batch_size : Int) : Int := %s\n" % bp[0][0]
     text += "def batchRangeStop (n batch_size : Int) : Int := %s\n" % bp[0][1]
